@@ -22,7 +22,12 @@ namespace etl {
 #else
     auto const* l = static_cast<unsigned char const*>(lhs);
     auto const* r = static_cast<unsigned char const*>(rhs);
-    return etl::detail::strncmp<unsigned char, etl::size_t>(l, r, count);
+    for (etl::size_t i = 0; i != count; ++i) {
+        if (l[i] != r[i]) {
+            return static_cast<int>(l[i]) - static_cast<int>(r[i]);
+        }
+    }
+    return 0;
 #endif
 }
 
